@@ -73,3 +73,58 @@ Proof.
   - specialize (Hf _ _ _ _ Hne E). lia.
   - exact I.
 Qed.
+
+(* ---- BufferedStreamDataConsumer.__save_remainder_in_buffer copies the remainder into the (whole) receive buffer; the
+   slice assignment raises ValueError when the remainder is longer than the buffer.  Through the generic wrapper the
+   inner generator is sent buffer[:nbytes]; the remainder fits as soon as it is no longer than that slice, which holds
+   for a loader that only moves forward (it failed with EOF on the previous content, so it reads into the new slice
+   before it can return or fail) and for a decompressor (unused_data is a part of the last slice). ---- *)
+Lemma bio_write_at_end (w ch : bytes) : bio_write w (length w) ch = w ++ ch.
+Proof.
+  unfold bio_write. rewrite firstn_all, Nat.sub_diag. cbn [repeat app].
+  rewrite skipn_all2 by lia. rewrite app_nil_r. reflexivity.
+Qed.
+
+Lemma fb_remainder_fits {P} limit (load : bytes -> lres P) expected (content ch : bytes) :
+  (forall p pos, load (content ++ ch) = LDone p pos -> length content <= pos) ->
+  (forall k pos, load (content ++ ch) = LRaise k pos -> length content <= pos) ->
+  match fb_round limit load expected (content ++ ch) with
+  | Done _ rest | Fail _ rest => length rest <= length ch
+  | _ => True
+  end.
+Proof.
+  intros Hd Hr. unfold fb_round. destruct (Nat.ltb _ _).
+  - pose proof (overrun_remainder_len [] (content ++ ch) (length (content ++ ch))). lia.
+  - destruct (load (content ++ ch)) as [pos|p pos|k pos] eqn:E; [exact I| |].
+    + specialize (Hd _ _ eq_refl). rewrite skipn_length, app_length. lia.
+    + destruct (expected k); [|exact I]. specialize (Hr _ _ eq_refl). rewrite skipn_length, app_length. lia.
+Qed.
+
+Lemma fb_feed_remainder_fits {P} limit (load : bytes -> lres P) expected st (content ch : bytes) :
+  st = None /\ content = [] \/ st = Some (content, length content) ->
+  (forall p pos, load (content ++ ch) = LDone p pos -> length content <= pos) ->
+  (forall k pos, load (content ++ ch) = LRaise k pos -> length content <= pos) ->
+  match fb_feed limit load expected st ch with
+  | Done _ rest | Fail _ rest => length rest <= length ch
+  | _ => True
+  end.
+Proof.
+  intros [[H1 H2]|H1] Hd Hr; subst; cbn [fb_feed].
+  - apply (fb_remainder_fits limit load expected [] ch Hd Hr).
+  - rewrite bio_write_at_end. apply fb_remainder_fits; assumption.
+Qed.
+
+Lemma cz_remainder_fits {P} D (dd : D -> bytes -> (D * bytes) + Z) deof dunused expected (inner : bytes -> ErrSites.ores P)
+      inner_declared st (ch : bytes) :
+  (forall d c d' out, dd d c = inl (d', out) -> deof d' = true -> length (dunused d') < length c) ->
+  match cz_feed D dd deof dunused expected inner inner_declared st ch with
+  | Done _ rest | Fail _ rest => length rest <= length ch
+  | _ => True
+  end.
+Proof.
+  intros Hu. unfold cz_feed, cz_finish. destruct st as [results d].
+  destruct (dd d ch) as [[d' out]|k] eqn:E.
+  - destruct (deof d') eqn:Ee; [|exact I]. specialize (Hu _ _ _ _ E Ee).
+    destruct (inner _); [lia|]. destruct (inner_declared k); [lia|exact I].
+  - destruct (expected k); [cbn; lia|exact I].
+Qed.
